@@ -19,4 +19,5 @@ CONSTANTS
   ScionMacErrPanics = TRUE
   ScionTsOptUnchecked = TRUE
   ScionTsOptTrusted = TRUE
+  CmsgLenUnchecked = TRUE
 INVARIANTS Emit
